@@ -53,6 +53,7 @@ func main() {
 	arpOut := flag.String("arp-out", "", "output Lean file for the translated ARP spoofing handler (F15, Gen/ArpGen.lean); default: not written")
 	tablesOut := flag.String("tables-out", "", "output Lean file for the translated host/MAC table operations (F14, Gen/TablesGen.lean); default: not written")
 	icmp6Out := flag.String("icmp6-out", "", "output Lean file for the translated ICMPv6 / NDP spoofing handler (F15, Gen/Icmp6Gen.lean); default: not written")
+	sendOut := flag.String("send-out", "", "output Lean file for the translated send paths (F15, Gen/Senders.lean); default: not written")
 	flag.Parse()
 	cfg := &packages.Config{Mode: packages.NeedName | packages.NeedFiles | packages.NeedSyntax | packages.NeedTypes | packages.NeedTypesInfo | packages.NeedImports | packages.NeedDeps, Dir: *repo, Tests: false}
 	pkgs, err := packages.Load(cfg, "./", "./handlers/...", "./fastlog")
@@ -185,6 +186,14 @@ func main() {
 		var lb strings.Builder
 		loopOptsFacts(pkgs, &lb)
 		if err := os.WriteFile(*loopsOptsOut, []byte(lb.String()), 0o644); err != nil {
+			fmt.Fprintln(os.Stderr, err)
+			os.Exit(1)
+		}
+	}
+	if *sendOut != "" {
+		var sb strings.Builder
+		senderFacts(pkgs, root, &sb)
+		if err := os.WriteFile(*sendOut, []byte(sb.String()), 0o644); err != nil {
 			fmt.Fprintln(os.Stderr, err)
 			os.Exit(1)
 		}
